@@ -1,6 +1,7 @@
 package main
 
 import (
+	"os"
 	"fmt"
 	"go/token"
 	"go/types"
@@ -53,6 +54,8 @@ type verifyCtx struct {
 	proto         *protoRun
 	loops         map[*ssa.BasicBlock]*loopInfo
 	qn            int
+	hooksAfter    map[ssa.Instruction][]*AtHook
+	hooksBefore   map[ssa.Instruction][]*AtHook
 }
 
 func (vc *verifyCtx) specEnv(st *State) *SpecEnv {
@@ -541,6 +544,22 @@ func (e *Engine) havocLoop(st *State, fr *frame, li *loopInfo) {
 						c := e.ctx.Fresh("strcnt", SInt)
 						st.assume(Le(IntLit(0), c))
 						st.ghost["strcnt:"+r.Name()] = c
+					}
+				}
+			}
+		}
+	}
+	// ghost variables assigned by hooks inside the loop
+	if e.cur != nil {
+		for b := range li.body {
+			for _, ins := range b.Instrs {
+				for _, hs := range [][]*AtHook{e.cur.hooksAfter[ins], e.cur.hooksBefore[ins]} {
+					for _, h := range hs {
+						if h.Kind == "set" {
+							if old, ok := st.ghost[h.Ghost].(Term); ok {
+								st.ghost[h.Ghost] = e.ctx.Fresh("gh_"+h.Ghost, old.Sort)
+							}
+						}
 					}
 				}
 			}
@@ -1214,6 +1233,9 @@ type FuncResult struct {
 }
 
 func (e *Engine) VerifyFunc(fn *ssa.Function, c *Contract) (res *FuncResult) {
+	if c.BitVector {
+		return e.verifyBitVector(fn, c)
+	}
 	_, rel := e.relName(fn)
 	res = &FuncResult{Func: pkgBase(pkgOf(fn).Path()) + "." + rel, Props: c.Props}
 	cases := []*Case{nil}
@@ -1332,6 +1354,11 @@ func (e *Engine) verifyCase(fn *ssa.Function, c *Contract, cs *Case, res *FuncRe
 		st.assume(e.evalSpecBool(env, a.Expr))
 		e.trustedUsed[fmt.Sprintf("UNCHECKED assumption at entry of %s: %s", fn.Name(), a.Src)] = true
 	}
+	// ghost variables and source-line hooks
+	for _, g := range c.GhostVars {
+		st.ghost[g.Name] = e.evalSpec(env, g.Init)
+	}
+	e.resolveHooks(vc)
 	vc.discipline = e.newDiscipline(fn)
 	vc.entryLocks = map[string]lockMode{}
 	for _, h := range c.Holds {
@@ -1504,4 +1531,109 @@ func (e *Engine) holdKey(env *SpecEnv, h HoldDecl) string {
 	}
 	sfail("holds: no field %s", h.Field)
 	return ""
+}
+
+
+// resolveHooks attaches the contract's after/before hooks to instructions of
+// the function: the unique source line of the function containing the hook's
+// text; `after` = the stores to locals on that line (the last one in each
+// block), `before` = the first call on that line.
+func (e *Engine) resolveHooks(vc *verifyCtx) {
+	vc.hooksAfter = map[ssa.Instruction][]*AtHook{}
+	vc.hooksBefore = map[ssa.Instruction][]*AtHook{}
+	if len(vc.c.Hooks) == 0 {
+		return
+	}
+	fn := vc.fn
+	fset := e.prog.Fset
+	var file string
+	lo, hi := 1<<30, 0
+	for _, b := range fn.Blocks {
+		for _, ins := range b.Instrs {
+			if ins.Pos().IsValid() {
+				pp := fset.Position(ins.Pos())
+				file = pp.Filename
+				if pp.Line < lo {
+					lo = pp.Line
+				}
+				if pp.Line > hi {
+					hi = pp.Line
+				}
+			}
+		}
+	}
+	src, err := os.ReadFile(file)
+	if err != nil {
+		panic(unsupported("hooks: cannot read " + file))
+	}
+	lines := strings.Split(string(src), "\n")
+	for _, h := range vc.c.Hooks {
+		var hlines []int
+		for ln := lo; ln <= hi && ln <= len(lines); ln++ {
+			if strings.Contains(lines[ln-1], h.Text) {
+				hlines = append(hlines, ln)
+			}
+		}
+		if len(hlines) > 1 && !h.All {
+			panic(unsupported(fmt.Sprintf("hook text %q matches more than one line of %s", h.Text, fn.Name())))
+		}
+		if len(hlines) == 0 {
+			panic(unsupported(fmt.Sprintf("hook text %q not found in %s (contract no longer matches the source)", h.Text, fn.Name())))
+		}
+		line := hlines[0]
+		found := false
+		for _, b := range fn.Blocks {
+			for _, hl := range hlines {
+				var lastStore ssa.Instruction
+				var firstCall ssa.Instruction
+				for _, ins := range b.Instrs {
+					if !ins.Pos().IsValid() || fset.Position(ins.Pos()).Line != hl {
+						continue
+					}
+					switch x := ins.(type) {
+					case *ssa.Store:
+						if rootAlloc(x.Addr) != nil {
+							lastStore = ins
+						}
+					case ssa.CallInstruction:
+						if firstCall == nil {
+							firstCall = ins
+						}
+					}
+				}
+				if h.Before && firstCall != nil {
+					vc.hooksBefore[firstCall] = append(vc.hooksBefore[firstCall], h)
+					found = true
+				}
+				if !h.Before && lastStore != nil {
+					vc.hooksAfter[lastStore] = append(vc.hooksAfter[lastStore], h)
+					found = true
+				}
+			}
+		}
+		if !found {
+			panic(unsupported(fmt.Sprintf("hook text %q: no assignment/call on line %d of %s", h.Text, line, fn.Name())))
+		}
+	}
+}
+
+// runHooks executes the hooks attached to an instruction.
+func (e *Engine) runHooks(st *State, hs []*AtHook, pos token.Pos) {
+	if len(hs) == 0 || e.cur == nil {
+		return
+	}
+	env := e.cur.specEnv(st)
+	env.local = e.localLookup(st, e.cur.fn)
+	for _, h := range hs {
+		switch h.Kind {
+		case "set":
+			st.ghost[h.Ghost] = e.evalSpec(env, h.Clause.Expr)
+		case "assert":
+			e.oblige(st, "assert", clauseName(h.Clause, 0), e.evalSpecBool(env, h.Clause.Expr), pos)
+			st.assume(e.evalSpecBool(env, h.Clause.Expr))
+		case "assume":
+			st.assume(e.evalSpecBool(env, h.Clause.Expr))
+			e.trustedUsed[fmt.Sprintf("UNCHECKED assumption in %s at %q: %s", e.cur.fn.Name(), h.Text, h.Clause.Src)] = true
+		}
+	}
 }
